@@ -31,10 +31,14 @@ def validate(module, trace_path, what):
 
 
 def header_sig(ev):
+    """header:<entry point>:<mutation>:<real verdict>[:skip_pow][:opts=SYNC|MINE|...]
+    (calls made with Options::NONE carry no opts suffix)."""
     if ev is None:
         return "header:trace:eof"
     mut = ev.get("mut", "?")
-    return "header:%s:%s:%s%s" % (ev.get("k"), mut, ev.get("verdict"), ":skip_pow" if ev.get("skip") else "")
+    rest = [o for o in ev.get("opts", []) if o != "SKIP_POW"]
+    return "header:%s:%s:%s%s%s" % (ev.get("k"), mut, ev.get("verdict"), ":skip_pow" if ev.get("skip") else "",
+                                    (":opts=" + "+".join(rest)) if rest else "")
 
 
 def diff_sig(ev):
@@ -51,8 +55,18 @@ def run_chain(wd, name, seed, length, sync=1):
     p = vlib.harness(["header", "chain", "--dir", os.path.join(d, "chains"), "--out", tp, "--diffout", dp,
                       "--seed", seed, "--len", length, "--sync", sync], timeout=1500)
     info = json.loads(p.stdout.strip().splitlines()[-1])
+    info["seed"], info["len"] = seed, length
     shutil.rmtree(os.path.join(d, "chains"), ignore_errors=True)
     return tp, dp, info
+
+
+def check_body_sync(rep, info):
+    """Every honest block was handed to the second node by body sync (Options::SYNC, partly through the
+    orphan pool): it must hold all of them and be at the honest chain's height and total work."""
+    if info.get("body_synced", 0) > 0 and not info["body_head_ok"]:
+        rep.violation("header:BodySync:honest:not_on_honest_chain:opts=SYNC",
+                      {"kind": "chain", "seed": info["seed"], "len": info["len"], "event_index": None, "event": None},
+                      "after header sync + body sync of all %d honest blocks the node is not on the honest chain" % info["body_synced"])
 
 
 def check_chain_trace(rep, tp, seed, length, what):
@@ -105,6 +119,7 @@ def run(tier, replay):
         elif kind == "chain":
             tp, dp, info = run_chain(wd, "replay", case["seed"], case["len"])
             check_chain_trace(rep, tp, case["seed"], case["len"], "replay")
+            check_body_sync(rep, info)
             check_diff_trace(rep, dp, {"kind": "chain", "seed": case["seed"], "len": case["len"]}, "replay")
         elif kind == "drecord":
             dp = os.path.join(wd, "drand.ndjson")
@@ -185,7 +200,9 @@ def run(tier, replay):
         infos[k] = info
         s = {"chain": seed, "chain1": seed + 1000003, "chain2": seed + 2000003}[k]
         ln = {"chain": length, "chain1": 70, "chain2": 16}[k]
-        check_chain_trace(rep, tp, s, ln, k)
+        ok = check_chain_trace(rep, tp, s, ln, k)
+        if ok:
+            check_body_sync(rep, info)
         ntr += 1
         # chain-derived difficulty events are validated on their own so that the replay re-runs the chain
         check_diff_trace(rep, dp, {"kind": "chain", "seed": s, "len": ln}, k)
@@ -198,13 +215,24 @@ def run(tier, replay):
     # anti-vacuity of the scenario itself (tool problem, never a verdict)
     if main["height"] >= length and not rep.violations:
         need = ["ts_equal", "ts_next", "total_plus1", "scaling_plus1", "prev_root_bad", "version_plus", "nonce_stale",
-                "edge_bits_below", "edge_bits_up", "outputs_none", "too_heavy", "ts_future", "honest"]
+                "proof_tampered", "proof_forged", "edge_bits_below", "edge_bits_up", "outputs_none", "too_heavy", "ts_future",
+                "honest"]
         missing = [m for m in need if m not in by]
         if missing:
             raise ToolError("scenario delivered no mutation of class %s" % missing)
         if main["pow_low_found"] == 0 or main["pow_exact_found"] == 0 or main["max_target"] <= 20:
             raise ToolError("scenario never exercised the proof-of-work target clause: %s" %
                             {k: main[k] for k in ("pow_low_found", "pow_exact_found", "max_target")})
+        # every entry point must have been driven with every option set the node uses, each with
+        # accepted and refused headers, and with headers whose only defect is the cycle
+        byo = main["by_options_accept_reject_orphan"]
+        paths = ["Header:NONE", "Sync:NONE", "Sync:SYNC", "Block:NONE", "Block:SYNC", "Block:MINE"]
+        thin = [p_ for p_ in paths if p_ not in byo or byo[p_][0] == 0 or byo[p_][1] == 0
+                or main["forged_by_path"].get(p_, 0) == 0]
+        if thin:
+            raise ToolError("scenario did not drive %s with accepted, refused and forged-proof headers: %s" % (thin, byo))
+        if byo["Block:SYNC"][2] == 0 or main["body_synced"] < length:
+            raise ToolError("body sync never went through the orphan pool: %s" % byo["Block:SYNC"])
 
     sample_events = vlib.read_ndjson(recorded["chain"][0])
     sample = [e for e in sample_events if e.get("mut") in ("pow_low", "ts_equal")][:2]
@@ -217,7 +245,10 @@ def run(tier, replay):
         "difficulty_replay": dinfo,
         "difficulty_trace_events": recorded["drand"][1]["events"] + sum(infos[k]["diff_events"] for k in chains),
         "header_trace": {k: {kk: infos[k][kk] for kk in ("events", "height", "delivered", "accepted", "max_target",
-                                                          "pow_exact_found", "pow_low_found", "sync_chunks")} for k in chains},
+                                                          "pow_exact_found", "pow_low_found", "sync_chunks", "forged_found",
+                                                          "body_synced", "body_head_ok")} for k in chains},
+        "deliveries_by_entry_point_and_options_accept_reject_orphan": main["by_options_accept_reject_orphan"],
+        "forged_proof_deliveries_by_path": main["forged_by_path"],
         "verdicts_by_mutation_accept_reject": by,
         "checker_cmd": "tlc mc/MC_Header; tlc mc/MC_Difficulty; tlc trace/HeaderTrace; tlc trace/DifficultyTrace",
     }
@@ -226,6 +257,9 @@ def run(tier, replay):
         "primitives: the trace carries powValid / powDiff / rootOK flags measured with them (C05, C07 cover them)",
         "TLC integers are 32-bit: windows with sum(difficulty)*60 >= 2^31, scaling sum*90 >= 2^31, WTEMA difficulty > 149130 "
         "or timestamps >= 2^31 are not covered",
+        "options: every entry point is driven with NONE / SYNC / MINE (what servers/src passes) and SKIP_POW combinations; "
+        "Header.tla gives SYNC and MINE no meaning (MC_Header!OptionsIrrelevant), so any dependence of the real verdict on them "
+        "is a mismatch; the orphan pool is observed through the Orphan result and the final chain only",
         "real-PoW chains run under AutomatedTesting only (cuckatoo, edge_bits 10, proof size 8); Mainnet/Testnet/UserTesting "
         "constants are bound through the pure function next_difficulty and the model only",
         "next_difficulty outside its domain (empty window; fewer than 2 headers for WTEMA) panics and is left free: no header "
